@@ -1,0 +1,62 @@
+//! Read-only instrumentation for external verification harnesses.
+//!
+//! Only compiled with the `verif-hooks` feature; nothing here changes the behaviour of the crate.
+
+use std::cell::RefCell;
+
+/// One call of a canonization walk: which group, for how many variables, and the
+/// swap / flip sequences that the walk was actually given
+#[derive(Clone, Debug, PartialEq, Eq)]
+pub struct WalkRecord {
+    /// "p", "n" or "npn"
+    pub kind: &'static str,
+    /// Number of variables of the call
+    pub num_vars: usize,
+    /// Adjacent swaps followed by the walk
+    pub swaps: Vec<u8>,
+    /// Single-variable flips followed by the walk
+    pub flips: Vec<u8>,
+}
+
+thread_local! {
+    static WALK_LOG: RefCell<Vec<WalkRecord>> = const { RefCell::new(Vec::new()) };
+}
+
+pub(crate) fn record_walk(kind: &'static str, num_vars: usize, swaps: &[u8], flips: &[u8]) {
+    WALK_LOG.with(|l| {
+        l.borrow_mut().push(WalkRecord {
+            kind,
+            num_vars,
+            swaps: swaps.to_vec(),
+            flips: flips.to_vec(),
+        })
+    });
+}
+
+/// Take (and clear) the walks recorded on this thread since the last call
+pub fn take_walk_log() -> Vec<WalkRecord> {
+    WALK_LOG.with(|l| std::mem::take(&mut *l.borrow_mut()))
+}
+
+/// Copies of the constant tables used by the bitwise kernels
+pub struct Constants {
+    /// `VAR_MASK`
+    pub var_mask: Vec<u64>,
+    /// `NUM_VARS_MASK`
+    pub num_vars_mask: Vec<u64>,
+    /// `SWAP_INPUT_MASKS`
+    pub swap_input_masks: Vec<Vec<u64>>,
+    /// `COUNT_MASKS`
+    pub count_masks: Vec<u64>,
+}
+
+/// Return copies of the constant tables used by the bitwise kernels
+pub fn constants() -> Constants {
+    use crate::operations::*;
+    Constants {
+        var_mask: VAR_MASK.to_vec(),
+        num_vars_mask: NUM_VARS_MASK.to_vec(),
+        swap_input_masks: SWAP_INPUT_MASKS.iter().map(|r| r.to_vec()).collect(),
+        count_masks: COUNT_MASKS.to_vec(),
+    }
+}
